@@ -763,28 +763,37 @@ def r2_3(ctx: Ctx, rule="R2.3"):
         ctx.ob(rule, g, branch, False, "the small-reference branch builds a frame with the frame builder -- call not found", node=branch)
         return
     size_var = sorted(size_names)[0] if size_names else "n_atoms"
-    nob = 0
+    nob = n_und = 0
     for n in sizes:
         env: Dict[str, List[str]] = {}
         ints: Dict[str, int] = {}
         okseq = True
-        for s in branch.body:
-            if isinstance(s, ast.Assign) and isinstance(s.targets[0], ast.Name):
-                # fold range(3 - n_atoms) with the branch's size
-                val = s.value
-                seq = _seq_eval_n(val, env, n, size_var, ints)
-                if seq is not None:
-                    env[s.targets[0].id] = seq
-                else:
-                    iv = _int_eval_n(val, n, size_var, ints)
-                    if iv is not None:
-                        ints[s.targets[0].id] = iv
+        def _walk_sized(stmts):
+            for s in stmts:
+                if isinstance(s, ast.If):
+                    # a test on the size inside the branch: follow the arm taken by a reference of n atoms
+                    tv = eval_size_test(s.test, n)
+                    if tv is not None:
+                        _walk_sized(s.body if tv else s.orelse)
+                    continue
+                if isinstance(s, ast.Assign) and isinstance(s.targets[0], ast.Name):
+                    # fold range(3 - n_atoms) with the branch's size
+                    val = s.value
+                    seq = _seq_eval_n(val, env, n, size_var, ints)
+                    if seq is not None:
+                        env[s.targets[0].id] = seq
+                    else:
+                        iv = _int_eval_n(val, n, size_var, ints)
+                        if iv is not None:
+                            ints[s.targets[0].id] = iv
+        _walk_sized(branch.body)
         arg = fbc[0].args[0]
         seq = _seq_eval_n(arg, env, n, size_var, ints)
         if seq is None or len(seq) != 3:
             ctx.ob(rule, g, "points handed to the frame builder for a %d-atom reference" % n, True,
                    "construction of the three points not in the modelled fragment (%s); not decided" % norm(arg),
                    undecided=True, node=fbc[0])
+            n_und += 1
             continue
         nob += 1
         want_axis = "M1" if n >= 2 else None
@@ -807,7 +816,7 @@ def r2_3(ctx: Ctx, rule="R2.3"):
     ctx.ob(rule, g, keys[0] if keys else "frame key", bool(keys) and norm(keys[0].targets[0].slice) == "hash(%s[0])" % p,
            "the single frame of a small reference is keyed by its first atom (whose position is the origin)",
            node=keys[0] if keys else branch)
-    ctx.floor(rule, nob, 2, "small-reference sizes evaluated")
+    ctx.floor(rule, nob + n_und, 2, "small-reference sizes evaluated")
 
 
 def _fold_size(e, n, size_var, ints=None):
